@@ -3,6 +3,23 @@ import common
 import gen
 import vsuite
 
+import sys
+
+
+def _has_huge_int(v, depth=0):
+    """an int too large for CPython's int -> str conversion (sys.get_int_max_str_digits())"""
+    lim = sys.get_int_max_str_digits()
+    if type(v) is int or (isinstance(v, int) and not isinstance(v, bool)):
+        return lim > 0 and abs(int(v)) >= 10 ** lim
+    if depth > 8:
+        return False
+    if isinstance(v, (list, tuple)):
+        return any(_has_huge_int(x, depth + 1) for x in v)
+    if isinstance(v, dict):
+        return any(_has_huge_int(k, depth + 1) or _has_huge_int(x, depth + 1) for k, x in v.items())
+    return False
+
+
 PROPS_FILE = "props/C08.v"
 MODEL_FILES = ["theories/Validate.v"]
 
@@ -51,6 +68,9 @@ def run(ctx):
         try:
             msgs = [e.format(fmt) for e in c.errors]
         except Exception as e:  # noqa
+            if isinstance(e, ValueError) and _has_huge_int(c.value) and \
+                    ctx.known_finding("F28", f"validate_or_fail({c.ssrc}, <int with more than {sys.get_int_max_str_digits()} digits>)"):
+                continue
             rp = c.replay_dict()
             rp.update(observed=f"error.format raised {type(e).__name__}: {e}", expected="a non-empty message")
             ctx.violation("formatting an error raised", rp)
